@@ -114,6 +114,12 @@ async def sk_selected_mailbox_deleted_and_created_again(hp, w, rnd, ctx):
         await w.op_append(a, "INBOX")
     await w.op_select(a, "ph")
     await w.op_select(c, "ph", examine=True)
+    # B changes the mailbox while A and C just sit there: what is queued up for them dies with the mailbox
+    await w.op_select(b, "ph")
+    await w.op_store(b, [1], "add", ["\\Deleted", "\\Flagged"])
+    await w.op_expunge(b)
+    await w.op_append(b, "ph")
+    await w.op_select(b, "INBOX")
     await w.op_delete(b, "ph")
     await w.op_select(a, "INBOX")
     await w.op_noop(c)
@@ -134,10 +140,37 @@ async def sk_selected_mailbox_deleted_and_created_again(hp, w, rnd, ctx):
     await w.observe()
 
 
+async def sk_selected_leaf_deleted_with_updates_queued(hp, w, rnd, ctx):
+    """The same with a leaf mailbox (it is really removed), and the passive
+    session goes on with EXAMINE of another mailbox, then SELECT."""
+    a, b = w.session(), w.session()
+    await w.op_create(a, "leafx")
+    await w.op_create(a, "other")
+    for i in range(4):
+        await w.op_append(a, "leafx")
+    for i in range(5):
+        await w.op_append(a, "other")
+    await w.op_select(a, "leafx")
+    await w.op_select(b, "leafx")
+    await w.op_store(b, [2, 3], "add", ["\\Deleted"])
+    await w.op_expunge(b)
+    await w.op_store(b, [1], "add", ["kw1"])
+    await w.op_select(b, "INBOX")
+    await w.op_delete(b, "leafx")
+    await w.op_select(a, "other", examine=True)
+    await w.op_noop(a)
+    await w.op_fetch(a, [1, 2, 3, 4, 5], "UID FLAGS")
+    await w.op_select(a, "other")
+    await w.op_noop(a)
+    await w.op_append(b, "other")
+    await w.op_noop(a)
+    await w.observe()
+
+
 class C01(HistProp):
     prop = PROP
     skeletons = [sk_expunge_then_delivery, sk_expunge_then_append, sk_expunge_then_copy_in, sk_expunge_while_idling,
-                 sk_move_out_selected_twice, sk_move_with_pending_delivery, sk_uid_fetch_behind_expunge, sk_rename_inbox_with_watcher, sk_selected_mailbox_deleted_and_created_again]
+                 sk_move_out_selected_twice, sk_move_with_pending_delivery, sk_uid_fetch_behind_expunge, sk_rename_inbox_with_watcher, sk_selected_mailbox_deleted_and_created_again, sk_selected_leaf_deleted_with_updates_queued]
     weights = {"store_del": 10, "expunge": 8, "noop": 10, "deliver": 6, "idle": 4, "move": 5, "deliver_stalled": 2}
     pack_limits = [100, 100, 6]
 
